@@ -9,6 +9,23 @@ TB = "CPython 3.12, crosshair-tool 0.0.110, z3 5.1; the import shim of lib/repo_
 
 # id -> (category, technique, text, note, design_ref, engine)
 CHECKS = {
+    "C03": ("translation_validation",
+            "CrossHair/z3 symbolic execution of (CPython on the source || walk over the CFG the real CFGBuilder built) per corpus program, symbolic inputs and symbolic opaque-call results; real check() decides acceptance",
+            "CFG level only: for each program of a generated classical corpus (120 quick / 1500 thorough + fixed ones; if/elif/else, bounded while, for over range, break/continue/return, dead code, nested defs, unpacking, "
+            "walrus, conditional expressions, short-circuit and chained comparisons) that the real check() accepts, every path of CPython's execution and of the block walk over the real builder's CFG is explored for symbolic inputs; "
+            "results, panics and event traces must agree. Programs inside the region of the known hoisting finding are probed separately.",
+            TB + "; lib/e4.py block walker (edge convention successors[1] = true), models of MakeIter/IterNext; the corpus generators", "DESIGN.md §5 C03", "E4"),
+    "C05": ("translation_validation",
+            "CrossHair/z3 symbolic execution of (CPython on the source || walk over the real CFG) comparing ordered event traces, for symbolic inputs and symbolic results of every opaque call",
+            "CFG level only: effect-heavy generated programs (60 quick / 800 thorough + fixed): calls of opaque f/g/h, emit, panic interleaved with operators, and/or/not, comparisons, conditional expressions, walrus, tuples, in "
+            "assignment, condition, argument and return position. Event traces (callee, argument values) must be identical on every path. The two known findings (hoisting before earlier operands, double evaluation of a chained "
+            "comparison's middle operand) are delimited by syntactic region predicates and re-established by probes inside the regions.",
+            TB + "; lib/e4.py block walker (edge convention successors[1] = true), models of MakeIter/IterNext; the corpus generators" + "; lib/e4_region.py", "DESIGN.md §5 C05", "E4"),
+    "C32": ("translation_validation",
+            "one program per Python statement/expression kind and optional clause through the real check(); every accepted one compared (CPython || walk over the real CFG) on all paths for symbolic inputs (CrossHair/z3)",
+            "96 programs (node classes of CPython's ast and optional clauses are enumerated and the coverage is reported): rejected with a GuppyError is fine, accepted must behave as CPython executes the source. "
+            "Constructs are made observable (a decorator that changes the function, a loop else that changes the result, defaults that are used).",
+            TB + "; lib/e4.py block walker (edge convention successors[1] = true), models of MakeIter/IterNext; the corpus generators", "DESIGN.md §5 C32", "E4"),
     "C29": ("model_checking",
             "CrossHair/z3 symbolic execution of the real wrap() on symbolic strings, and solver-enumerated geometry cases through the real DiagnosticsRenderer whose output is parsed back and compared with source text and span",
             "wrap(): every string of length <=3/4 over {a,b,space,newline,-} with widths 1..3 is symbolic: total, words preserved in order, no line over the width, indents do not move breaks. Renderer: all indentations 0..20 of span and context lines "
@@ -144,6 +161,7 @@ def main():
             "add_only": True,
         },
         "engines": [
+            {"name": "E4", "path": "lib/e4.py", "kind_free_text": "translation validation of the real CFGBuilder's output against CPython's execution of the same source under CrossHair (symbolic inputs and call results); corpora from lib/e4_corpus.py, lib/e4_syntax.py"},
             {"name": "E3", "path": "lib/e3_num.py", "kind_free_text": "direct z3 encodings generated from /repo's live binding tables (numeric tower), process pool, concrete replay against CPython"},
             {"name": "E2", "path": "lib/guppy_models.py", "kind_free_text": "Guppy std source (Python syntax) from /repo compiled unchanged and executed under CrossHair with Python models of the Guppy primitives"},
             {"name": "E1", "path": "lib/xh_worker.py", "kind_free_text": "CrossHair (z3) symbolic execution of real /repo Python units, one OS process per condition, reachability twin, native replay"},
